@@ -129,3 +129,6 @@ def run(chk, prog, tier):
     c16.check_stale_count(chk, prog)
     c14.check_siblings(chk, prog)
     check_cutoff_pure(chk, prog)
+    # serial and parallel index construction / rebuild scans consume every batch alike
+    from . import scan_common
+    scan_common.check_scan_batches(chk, prog, only=lambda f: "hash_index" in f.name or "table::SortedWritesTable" in f.name or "containers" in f.name, floor=6)
